@@ -48,6 +48,28 @@ thread_local! {
     static EVS: RefCell<Vec<Ev>> = const { RefCell::new(Vec::new()) };
     static WRITTEN: Cell<i64> = const { Cell::new(0) };
     static STATE: RefCell<Option<State>> = const { RefCell::new(None) };
+    /// scripts of the `set -v` stream: what appears on standard error is
+    /// recorded, line by line, as records of kind "echo"
+    static ECHO_ON: Cell<bool> = const { Cell::new(false) };
+    static ECHO_POS: Cell<usize> = const { Cell::new(0) };
+}
+
+/// Records what has been written to standard error since the last call.
+fn flush_echo() {
+    if !ECHO_ON.with(|e| e.get()) {
+        return;
+    }
+    let Some(st) = STATE.with(|s| s.borrow().clone()) else { return };
+    let all = vsh::read_file(&st, "/dev/stderr").unwrap_or_default();
+    let pos = ECHO_POS.with(|p| p.get());
+    if all.len() <= pos {
+        return;
+    }
+    ECHO_POS.with(|p| p.set(all.len()));
+    for l in all[pos..].split_inclusive(|b| *b == b'\n') {
+        let text: String = l.iter().map(|b| *b as char).collect();
+        EVS.with(|e| e.borrow_mut().push(Ev { kind: "echo", args: vec![text], status: 0, off: 0 }));
+    }
 }
 
 /// Number of bytes consumed so far from the standard input of the main shell.
@@ -69,6 +91,7 @@ fn stdin_consumed(env: &VEnv) -> i64 {
 }
 
 fn push(env: &VEnv, kind: &'static str, args: Vec<String>, with_off: bool) {
+    flush_echo();
     let off = if with_off { stdin_consumed(env) } else { 0 };
     EVS.with(|e| e.borrow_mut().push(Ev { kind, args, status: env.exit_status.0, off }));
 }
@@ -84,7 +107,8 @@ fn show_main(env: &mut VEnv, args: Vec<Field>) -> BuiltinFuture<'_> {
     Box::pin(async move {
         let mut vals = vec![];
         for a in args.iter() {
-            let v = env.variables.get_scalar(&a.value).map(|s| s.to_string());
+            // the bytes of the value, one character per byte (compared byte-wise)
+            let v = env.variables.get_scalar(&a.value).map(|s| s.bytes().map(|b| b as char).collect::<String>());
             vals.push(v.unwrap_or_default());
         }
         push(env, "show", vals, true);
@@ -112,6 +136,7 @@ async fn slurp_all(env: &mut VEnv, latin1: bool) -> String {
 
 fn slurp_main(env: &mut VEnv, _args: Vec<Field>) -> BuiltinFuture<'_> {
     Box::pin(async move {
+        flush_echo();
         let off = stdin_consumed(env);
         let st = env.exit_status.0;
         let s = slurp_all(env, true).await;
@@ -122,6 +147,7 @@ fn slurp_main(env: &mut VEnv, _args: Vec<Field>) -> BuiltinFuture<'_> {
 
 fn hdoc_main(env: &mut VEnv, _args: Vec<Field>) -> BuiltinFuture<'_> {
     Box::pin(async move {
+        flush_echo();
         let st = env.exit_status.0;
         let s = slurp_all(env, false).await;
         EVS.with(|e| e.borrow_mut().push(Ev { kind: "hdoc", args: vec![s], status: st, off: 0 }));
@@ -171,6 +197,7 @@ struct Obs {
 fn run(script: &[u8], feed: &Feed, data: &[u8]) -> Obs {
     EVS.with(|e| e.borrow_mut().clear());
     WRITTEN.with(|w| w.set(0));
+    ECHO_POS.with(|p| p.set(0));
     let script = script.to_vec();
     let data = data.to_vec();
     let feed = feed.clone();
@@ -271,6 +298,7 @@ fn run(script: &[u8], feed: &Feed, data: &[u8]) -> Obs {
             100_000,
         )
     }));
+    flush_echo();
     STATE.with(|s| *s.borrow_mut() = None);
     let evs = EVS.with(|e| std::mem::take(&mut *e.borrow_mut()));
     match r {
@@ -510,6 +538,8 @@ fn tr_simple(c: &ast::SimpleCommand) -> Option<Cmd> {
             Some(Cmd::Unalias(n.clone()))
         }
         ("set", [o, p]) if p == "portable" && (o == "-o" || o == "+o") => Some(Cmd::Portable(o == "-o")),
+        // echoing of input lines is not part of the model (checked by an oracle clause of its own)
+        ("set", [o]) if o == "-v" => Some(Cmd::Status(0)),
         ("exit", []) => Some(Cmd::Exit(None)),
         ("exit", [n]) => Some(Cmd::Exit(Some(num(n)?))),
         ("true", _) => Some(Cmd::Status(0)),
@@ -588,7 +618,16 @@ fn tr_pipeline(p: &ast::Pipeline) -> Option<Cmd> {
     let c = match &*p.commands[0] {
         ast::Command::Simple(s) => tr_simple(s)?,
         ast::Command::Compound(c) => tr_compound(c)?,
-        ast::Command::Function(_) => return None,
+        ast::Command::Function(f) => {
+            // a definition only (the generated scripts never call the function):
+            // exit status 0, nothing else; the body must be inside the model
+            let name = word_literal(&f.name)?;
+            if !name.starts_with("fn") || !name.chars().all(|c| c.is_ascii_alphanumeric()) {
+                return None;
+            }
+            tr_compound(&f.body)?;
+            Cmd::Status(0)
+        }
     };
     Some(if p.negation { Cmd::Not(Box::new(c)) } else { c })
 }
@@ -880,6 +919,7 @@ fn kind_code(k: &str) -> u64 {
         "probe" => 0,
         "show" => 1,
         "slurp" => 2,
+        "echo" => 4,
         _ => 3,
     }
 }
@@ -968,10 +1008,11 @@ fn emit(w: &mut CasesWriter, script: &str, data: &str, feeds: &[Feed], stream: &
 
 /// The script as bytes (it need not be UTF-8; `-c` feeds are dropped then).
 fn emit_bytes(w: &mut CasesWriter, script: &[u8], data: &str, feeds: &[Feed], stream: &str, tags: &[&str]) -> bool {
-    if !script.iter().copied().chain(data.bytes()).all(|b| b > 0) || !data.is_ascii() {
-        w.count("skipped:nul-byte");
-        return false;
-    }
+    emit_raw(w, script, data.as_bytes(), feeds, stream, tags)
+}
+
+/// Script and data as bytes.
+fn emit_raw(w: &mut CasesWriter, script: &[u8], data: &[u8], feeds: &[Feed], stream: &str, tags: &[&str]) -> bool {
     let Some(table) = build_table(script) else {
         w.count("skipped:outside-model");
         return false;
@@ -984,7 +1025,7 @@ fn emit_bytes(w: &mut CasesWriter, script: &[u8], data: &str, feeds: &[Feed], st
         if !utf8 && matches!(f, Feed::CmdString) {
             continue;
         }
-        let o = run(script, f, data.as_bytes());
+        let o = run(script, f, data);
         runs.push(format!("({}, {})", f.coq(), obs_coq(&o)));
         runs_json.push(format!("{{\"feed\":{},\"obs\":{}}}", json_str(&f.show()), obs_json(&o)));
         w.count(match f {
@@ -1007,7 +1048,7 @@ fn emit_bytes(w: &mut CasesWriter, script: &[u8], data: &str, feeds: &[Feed], st
     let term = format!(
         "(mkCase {} {} {} {} {})",
         coq::bytes(script),
-        coq::bytes(data.as_bytes()),
+        coq::bytes(data),
         coq::list(&states),
         coq::list(&entries),
         coq::list(&runs)
@@ -1052,7 +1093,7 @@ fn emit_bytes(w: &mut CasesWriter, script: &[u8], data: &str, feeds: &[Feed], st
         "{{\"stream\":{},\"script_latin1\":{},\"data\":{},\"parser_states\":{},\"runs\":[{}]}}",
         json_str(stream),
         json_str(&shown),
-        json_str(data),
+        json_str(&data.iter().map(|b| *b as char).collect::<String>()),
         nstates,
         runs_json.join(",")
     );
@@ -1140,7 +1181,8 @@ impl Gen<'_> {
             }),
             58..=59 => out.push(format!("lb probe {k}")),
             60..=69 => {
-                out.push(self.r.pick(&["{", "{ probe g;", "if true; then", "if true", "(", "if nosuchc; then probe n; else"]).to_string());
+                let fnopen = format!("fn{k}() {{");
+                out.push(self.r.pick(&["{", "{ probe g;", "if true; then", "if true", "(", "if nosuchc; then probe n; else", &fnopen, &fnopen]).to_string());
                 if out.last().unwrap() == "if true" {
                     out.push("then".into());
                 }
@@ -1150,7 +1192,7 @@ impl Gen<'_> {
                     self.item(depth + 1, out);
                 }
                 out.push(
-                    if opener.starts_with('{') {
+                    if opener.starts_with('{') || opener.starts_with("fn") {
                         "}"
                     } else if opener.starts_with('(') {
                         ")"
@@ -1269,6 +1311,86 @@ impl Gen<'_> {
                 out.extend_from_slice(b"slurp\nrest \xE9\xC3\n\xE2\x82");
             }
             1 => out.extend_from_slice(b"probe end"),
+            _ => {}
+        }
+        out
+    }
+    /// a data line for `read`: valid UTF-8 with multi-byte characters (which
+    /// chunk boundaries split), blanks, backslashes; sometimes a NUL byte
+    fn mb_data_line(&mut self) -> Vec<u8> {
+        const PIECES: [&[u8]; 12] = [
+            b"caf\xC3\xA9", b"\xE2\x82\xAC", b"\xF0\x9F\x98\x80", b" ", b"a", b"\xC3\xA9\xC3\xA8", b"\\", b"  ",
+            b"z\xE2\x82\xACz", b"\t", b"\xC2\xA0", b"b\xF0\x9F\x98\x80",
+        ];
+        let mut out = vec![];
+        let n = 1 + self.r.below(5);
+        // a NUL byte between two characters, never inside one
+        let nul_at = if self.r.chance(1, 6) { self.r.below(n + 1) } else { n + 1 };
+        for j in 0..n {
+            if j == nul_at {
+                out.push(0);
+            }
+            out.extend_from_slice(self.r.pick(&PIECES));
+        }
+        if nul_at == n {
+            out.push(0);
+        }
+        out
+    }
+    /// readers on the shared input taking such lines
+    fn mb_script(&mut self) -> (Vec<u8>, Vec<u8>) {
+        let mut script: Vec<u8> = vec![];
+        let mut data: Vec<u8> = vec![];
+        let n = 1 + self.r.below(3);
+        for _ in 0..n {
+            let k = self.k();
+            let v = self.var();
+            let raw = if self.r.chance(2, 3) { "-r " } else { "" };
+            let cmd = match self.r.below(3) {
+                0 => format!("read {raw}{v}\n"),
+                1 => format!("{{ read {raw}{v}; probe {k} $?; }}\n"),
+                _ => format!("read {raw}{v}; probe {k}\n"),
+            };
+            let cmd = cmd.replace(" $?", "");
+            script.extend_from_slice(cmd.as_bytes());
+            let line = self.mb_data_line();
+            // non-raw: a trailing backslash would continue onto the next line: fine too
+            script.extend_from_slice(&line);
+            script.push(b'\n');
+            data.extend_from_slice(&line);
+            data.push(b'\n');
+            script.extend_from_slice(format!("show {v}\nprobe {k}z\n").as_bytes());
+        }
+        if self.r.chance(1, 3) {
+            data.extend_from_slice(b"last \xC3\xA9");
+        }
+        (script, data)
+    }
+    /// `set -v` scripts: nothing else may write to standard error
+    fn verbose_script(&mut self) -> String {
+        let mut out = String::new();
+        let pre = self.r.below(3);
+        let post = 2 + self.r.below(5);
+        for j in 0..pre + post {
+            if j == pre {
+                out.push_str("set -v; probe vmark\n");
+            }
+            let k = self.k();
+            let v = self.var();
+            match self.r.below(9) {
+                0 | 1 => out.push_str(&format!("probe {k}\n")),
+                2 => out.push_str(&format!("show {v}\n")),
+                3 => out.push_str(&format!("{{\nprobe {k}\nshow {v}\n}}\n")),
+                4 => out.push_str(&format!("hdoc <<E\nbody {k}\nE\n")),
+                5 => out.push_str(&format!("if true; then\nprobe {k}\nfi\n")),
+                6 => out.push_str("# comment\n\n"),
+                7 => out.push_str(&format!("probe \\\n{k}\n")),
+                _ => out.push_str(&format!("false || probe {k}; probe {k}b\n")),
+            }
+        }
+        match self.r.below(4) {
+            0 => out.push_str("probe last"),
+            1 => out.push_str("probe x; exit 3\nprobe never\n"),
             _ => {}
         }
         out
@@ -1397,7 +1519,10 @@ const CORPUS_BYTES: [&[u8]; 4] = [
     b"{ read -r v2; } # \xC3\nX\nshow v2 # \xFF\n",
 ];
 
-const CORPUS: [(&str, &str); 33] = [
+const CORPUS: [(&str, &str); 36] = [
+    ("fn1() {\nprobe a\nread -r v1\n}\nprobe b\nread -r v1\ndata x\nshow v1\n", ""),
+    ("fn2()\n{\nprobe a\n}\nprobe b; fn3() { probe c; }\n)\nprobe never\n", ""),
+    ("read -r v1\nfn4() {\nprobe a\n}\nshow v1\n", "d\n"),
     ("read -d : v1\nab:ex\nshow v1\nprobe a\n", ""),
     ("read -d '\\' v1\nab\\ex\nshow v1\n", ""),
     ("read -r -d '\\' v1\nab\\ex\nshow v1\n", ""),
@@ -1511,6 +1636,42 @@ fn main() {
             Feed::ScriptFile,
         ];
         emit_bytes(&mut w, &script, "d1\nd2\n", &feeds, "non-utf8-bytes", &[]);
+    }
+
+    // 2c'. multi-byte characters and NUL bytes in what the read built-in takes
+    let n_mb = args.scale(60, 500);
+    for i in 0..n_mb {
+        let mut r = rng.fork(750_000 + i as u64);
+        let (script, data) = Gen { r: &mut r, key: 0 }.mb_script();
+        let n = script.len();
+        // shared descriptor: the data lines are part of the script
+        let feeds = vec![Feed::File, Feed::Fifo(vec![1; n.min(200)], true), Feed::Fifo(random_sizes(&mut r, n), true)];
+        emit_raw(&mut w, &script, b"", &feeds, "read-multibyte-data", &[]);
+        // separate descriptor: the same readers without the data lines in the script
+        let plain: Vec<u8> = split_lines(&script)
+            .into_iter()
+            .filter(|l| l.starts_with(b"read") || l.starts_with(b"{ read") || l.starts_with(b"show") || l.starts_with(b"probe"))
+            .flatten()
+            .collect();
+        emit_raw(&mut w, &plain, &data, &[Feed::CmdString, Feed::ScriptFile], "read-multibyte-data", &[]);
+    }
+
+    // 2c''. set -v: every line is echoed once, before its commands run
+    let n_v = args.scale(40, 400);
+    for i in 0..n_v {
+        let mut r = rng.fork(770_000 + i as u64);
+        let script = Gen { r: &mut r, key: 0 }.verbose_script();
+        let n = script.len();
+        let feeds = vec![
+            Feed::File,
+            Feed::Fifo(vec![1; n.min(200)], true),
+            Feed::Fifo(random_sizes(&mut r, n), true),
+            Feed::CmdString,
+            Feed::ScriptFile,
+        ];
+        ECHO_ON.with(|e| e.set(true));
+        emit(&mut w, &script, "d1\nd2\nd3\n", &feeds, "set-v", &[]);
+        ECHO_ON.with(|e| e.set(false));
     }
 
     // 2d. read -d DELIM on the shared input
